@@ -14,20 +14,26 @@ P1 = ("Exhaustive product (pipeline P1): the harness runs the real view on every
 
 CLAIMS = {
  "C02": ("model_checking", P1 + "Definitions (mean, sum, extrema, Welford mean/std through its square, HL normalisation, Roc with base/hold, "
-         "binary entropy, Vst, Vsct) are exact rationals over the last N values; small-integer and decimal alphabets, N=1..4 (quick) / 1..7 (thorough).",
+         "binary entropy, Vst, Vsct) are exact rationals over the last N values; small-integer and decimal alphabets, units of 1e-9 and 1e6, "
+         "N=1..4 (quick) / 1..7 (thorough); recorded streams at N=6..33 (100) validated on the ghost window (P3); the same scopes through the "
+         "implementation-shaped machines (MC_Model: machine = definition; ProdM: observation = machine) and Apalache inductive invariants "
+         "(Ind_Sma, Ind_Ext, Ind_HL, Ind_Count: all integers, all stream lengths).",
          "exhaustive model checking of TLA+ definitions against the implementation's complete behaviour tree", "5 C02"),
  "C05": ("model_checking", P1 + "Rsi / MyRSI against exact G, L over the N most recent changes (with hold on flat windows), alphabets {0,1,3} and "
-         "{-2,0,2} (so that x and -x are both explored: negation symmetry, strictly rising/falling windows are all inside the scope).",
+         "{-2,0,2} (so that x and -x are both explored: negation symmetry, strictly rising/falling windows are all inside the scope), units of "
+         "1e-9 and 1e6, recorded streams at N=7..33; machines (MC_Model, ProdM) and the Apalache invariant Ind_MyRsi.",
          "exhaustive model checking of TLA+ definitions against the implementation's complete behaviour tree", "5 C05"),
  "C06": ("model_checking", P1 + "Pearson correlation with the time index (fixed point, 20 decimals), Kendall tau over all pairs (exact), centre of "
-         "gravity (exact) on full windows, N=3..5 (quick) / 3..8 (thorough).",
+         "gravity (exact) on full windows, N=3..5 (quick) / 3..8 (thorough), units of 1e-9 and 1e6, recorded streams at N=9..20 (48).",
          "exhaustive model checking of TLA+ definitions against the implementation's complete behaviour tree", "5 C06"),
  "C11": ("model_checking", P1 + "The difference equations of SuperSmoother, RoofingFilter, LaguerreFilter, LaguerreRSI, CyberCycle, TrendFlex, ReFlex, "
          "EhlersFisherTransform and PFE are folded over the complete history in the specification (coefficients are formulas of N evaluated "
-         "with exp/cos/sin/ln series in 20-decimal fixed point; rational-coefficient views exactly) and compared at 1e-9.",
+         "with exp/cos/sin/ln series in 20-decimal fixed point; rational-coefficient views exactly) and compared at 1e-9; recorded streams at the "
+         "suite's own window lengths (16, 20, 48) validated step by step against the machines, which MC_Model checks against the batch folds.",
          "exhaustive model checking of TLA+ difference-equation folds against the implementation's complete behaviour tree", "5 C11"),
  "C13": ("model_checking", P1 + "WelfordRolling mean()/last() (population variance through the square), Drawdown (running maximum of relative declines) "
-         "and LnReturn (ln series) against batch definitions over the whole history; integer and decimal positive alphabets.",
+         "and LnReturn (ln series) against batch definitions over the whole history; integer and decimal positive alphabets; recorded streams "
+         "of 1e4..1e6 values (mean() getter included, a large-mean stream, beyond 2^16 values) against exact running sums in the ghost state.",
          "exhaustive model checking of TLA+ definitions against the implementation's complete behaviour tree", "5 C13"),
  "C04": ("model_checking", P1 + "Four invariants on real observations: interval (answer inside [min,max] of the averaged values), constant "
          "window reproduced, monotone (every single-position raise of the history is compared with its sibling), affine (second real run "
@@ -35,12 +41,14 @@ CLAIMS = {
          "Alma Gaussian kernel (fixed point) as definitions.",
          "exhaustive model checking of TLA+ invariants and definitions against the implementation's behaviour trees (one and two runs)", "5 C04"),
  "C12": ("model_checking", "Self-composition as a product of two real behaviour trees: every history x of the scope and its transform a*x+b "
-         "(a=2 bit-exact, a=3/2, a=3 b=5/2, a=-1 with Min/Max swapped) run through the real views; TLC checks the relation table of MC_Rel.tla "
+         "(a=2 bit-exact, a=3/2, a=3 b=5/2, b=1e6, a=-1 with Min/Max swapped, units of 2^-120 and 2^100 with exact conversion back) run through the real views; TLC checks the relation table of MC_Rel.tla "
          "(invariant / scaled / affine / negated / 100-Rsi) in every state where the window is not flat.",
          "exhaustive model checking of a relation table over pairs of real runs (self-composition)", "5 C12"),
  "C14": ("model_checking", P1 + "Add/Subtract/Multiply/Divide over all pairs of {Echo, Constant, Sma(2), Roc(1), LnReturn}, GTE/LTE/Tanh/Echo/Constant: "
          "the answer must equal the exact rational combination of the children's definitions at every history (which makes it a function "
-         "of the current children values only); where operands and result are dyadic the observation must be exactly that number (bit-exact).",
+         "of the current children values only). Bit-exactness: the children's real answers (stand-alone siblings in the same scope) are decoded "
+         "exactly from their bit keys and the combinator must report the correctly rounded IEEE-754 result of that one operation (IEEE.tla); "
+         "Tanh must agree bit for bit with the harness reference child.last().map(f64::tanh).",
          "exhaustive model checking of TLA+ definitions against the implementation's complete behaviour tree", "5 C14"),
  "C01": ("model_checking", "Product over the behaviour tree of three REAL objects per (outer, inner) pair of the catalogue: the composite "
          "B<Tap<A<Probe>>> with the harness' transparent observation points between the crate's views, and the decomposition executed literally "
@@ -57,7 +65,8 @@ CLAIMS = {
          "exceeds [-1,1]; that clause is a KNOWN-FINDING (known_findings.json KF1), any other escape is a VIOLATION.",
          "exhaustive model checking of range invariants on real observations", "5 C07"),
  "C08": ("model_checking", P1 + "Readiness table of the specification (Tree.KindReady), never-reverts, finiteness (debug and release builds), and "
-         "'delivered nothing => answer unchanged' for every view and two-level chains, on alphabets with zeros, flats and sign changes.",
+         "'delivered nothing => answer unchanged' for every view and two-level chains, on alphabets with zeros, flats and sign changes; "
+         "70000-step recorded streams (every answer around steps 2^8, 2^15, 2^16) for readiness that re-closes and non-finite values.",
          "exhaustive model checking of readiness invariants on real observations", "5 C08"),
  "C09": ("model_checking", "(a) TLC evaluates the Jury stability conditions on the specification's coefficient formulas for every window length "
          "1..512 (4096 thorough), one state per N; (b) recorded streams of the real views (Nyquist, step, noise; pairs with a common tail) for "
@@ -67,7 +76,8 @@ CLAIMS = {
          "for four (a,b); homogeneity view(a x) = a view(x) for a in {-2, 3, 0, 1/3} as a two-table product; constant streams reproduced by the low-pass members.",
          "exhaustive model checking of superposition over pairs of real runs", "5 C10"),
  "C15": ("model_checking", P1 + "No observation of an accepted configuration is a panic, in the debug-assertion and the release build: all views, "
-         "windows 1..4 exhaustively over {-1,0,1}, windows 5..64 on constant and two-symbol streams longer and shorter than the window, two-level chains.",
+         "windows 1..4 exhaustively over {-1,0,1}, windows 5..64 on constant, two-symbol and adversarial recorded streams, 70000-step streams "
+         "(every answer around steps 2^8, 2^15, 2^16), two-level chains; model level: no machine panics for N=1..64, Ind_Count (Apalache).",
          "exhaustive model checking of a no-panic invariant on real observations (two build profiles)", "5 C15"),
  "C16": ("exploration", "Trace validation (P3): recorded f64 (2e4 / 1e6 steps) and f32 streams over three decades, and volatile prefixes followed by "
          ">= N+1 identical values, validated event by event by Trace_Stream.tla against the exact definition on the ghost window "
